@@ -50,6 +50,16 @@
 // the map is read directly, never through loadTrie, which would repopulate it).
 // observed: as in harness_test.go (probe, init record, one record per step; Root and TrieEntries
 // of EVERY live TrieState after every step).
+//
+// ---- third kind of input: `cstate` ----
+// child tries through storage.TrieState and dot/state: handle 0 is a TrieState over NewEmptyTrie();
+//   p/d/c/v as above, P<k>:<c>:<key>:<value> = SetChildStorage, E<k>:<c>:<key> = ClearChildStorage
+//   (no open transaction: PutIntoChild / ClearFromChild of the in-memory trie),
+//   S<k> StoreTrie (WriteDirty writes the child tries too), T<k> TrieState(&root) -> new handle
+//   (Snapshot() of the cached trie: every child trie gets a new trie with a copy of its root),
+//   R0 restart on the same database (TrieState(&root) then rebuilds the trie AND its child tries
+//   from the database: InMemoryTrie.Load).
+// observed: as for fork histories with child tries: every obs is <main view>|aa=<view>|bb=<view>.
 package state
 
 import (
@@ -1169,16 +1179,207 @@ func c03Exhaustive(emit func(string)) {
 	rec([]string{"p0:12:" + a40}, []hs{{}}, 0)
 }
 
+// ---- `cstate`: child tries through TrieState / StoreTrie / TrieState(root) / reload
+func c03csRun(in string) string {
+	toks := strings.Split(in, " ")[1:]
+	s, err := NewStorageState(c03sDB, nil, NewTries())
+	if err != nil {
+		return "err"
+	}
+	hs := []*storage.TrieState{storage.NewTrieState(inmemory_trie.NewEmptyTrie())}
+	stored := map[int]common.Hash{}
+	var prev []string
+	var out strings.Builder
+	out.WriteString(c03sProbe() + " ")
+	record := func(res string) bool {
+		out.WriteString(res)
+		for j, ts := range hs {
+			o, p := c03ObserveAll(ts.Trie().(*inmemory_trie.InMemoryTrie), true)
+			if p {
+				out.WriteString("/panic")
+				return false
+			}
+			if j < len(prev) && prev[j] == o {
+				out.WriteString("/=")
+			} else {
+				out.WriteString("/" + o)
+			}
+			if j < len(prev) {
+				prev[j] = o
+			} else {
+				prev = append(prev, o)
+			}
+		}
+		return true
+	}
+	step := func(tok string) (res string) {
+		defer func() {
+			if r := recover(); r != nil {
+				res = "panic"
+			}
+		}()
+		f := strings.Split(tok[1:], ":")
+		k := int(vu.UnX(f[0]))
+		if k >= len(hs) {
+			return "bad"
+		}
+		ts := hs[k]
+		switch tok[0] {
+		case 'p':
+			if err := ts.Put(vu.UnHex(f[1]), vu.UnHex(f[2])); err != nil {
+				return "err"
+			}
+		case 'd':
+			if err := ts.Delete(vu.UnHex(f[1])); err != nil {
+				return "err"
+			}
+		case 'c':
+			if err := ts.ClearPrefix(vu.UnHex(f[1])); err != nil {
+				return "err"
+			}
+		case 'v':
+			if f[1] == "1" {
+				ts.SetVersion(trie.V1)
+			} else {
+				ts.SetVersion(trie.V0)
+			}
+		case 'P':
+			if err := ts.SetChildStorage(vu.UnHex(f[1]), vu.UnHex(f[2]), vu.UnHex(f[3])); err != nil {
+				return "err"
+			}
+		case 'E':
+			if err := ts.ClearChildStorage(vu.UnHex(f[1]), vu.UnHex(f[2])); err != nil {
+				return "ok:nochild"
+			}
+		case 'S':
+			root := ts.Trie().MustHash()
+			if err := s.StoreTrie(ts, nil); err != nil {
+				return "err"
+			}
+			stored[k] = root
+		case 'R':
+			ns, err := NewStorageState(c03sDB, nil, NewTries())
+			if err != nil {
+				return "err"
+			}
+			s = ns
+		case 'T':
+			root, ok := stored[k]
+			if !ok {
+				return "bad"
+			}
+			nts, err := s.TrieState(&root)
+			if err != nil {
+				return "err"
+			}
+			hs = append(hs, nts)
+		default:
+			return "bad"
+		}
+		return "ok"
+	}
+	if !record("init") {
+		return out.String()
+	}
+	for _, tok := range toks {
+		if tok == "" {
+			continue
+		}
+		res := step(tok)
+		out.WriteByte(' ')
+		if res == "panic" || res == "bad" || res == "err" {
+			out.WriteString(res)
+			break
+		}
+		if !record(res) {
+			break
+		}
+	}
+	return out.String()
+}
+
+// blocks with child storage: a state with child tries is stored, optionally the node restarts,
+// a new block starts from TrieState(root) and writes into the child tries
+func c03csGen(r *vu.RNG, n int, emit func(string)) {
+	for q := 0; q < n; q++ {
+		toks := []string{"cstate"}
+		nh := 1
+		hsG := []*c03GenHandle{{kv: map[string][]byte{}}}
+		stored := map[int]bool{}
+		if r.Chance(1, 4) {
+			toks = append(toks, "v0:1")
+		}
+		open := 0
+		steps := 6 + r.Intn(12)
+		for s := 0; s < steps; s++ {
+			h := hsG[open]
+			switch x := r.Intn(100); {
+			case x < 45:
+				toks = append(toks, c03ChildOp(r, open, h))
+			case x < 60:
+				k := c03Key(r)
+				v := c03Val(r)
+				h.kv[string(k)] = v
+				toks = append(toks, "p"+vu.X(uint64(open))+":"+vu.Hex(k)+":"+vu.Hex(v))
+			case x < 66:
+				toks = append(toks, "v"+vu.X(uint64(open))+":1")
+			default: // store, maybe restart, new block on a stored state
+				if nh >= 6 {
+					continue
+				}
+				toks = append(toks, "S"+vu.X(uint64(open)))
+				stored[open] = true
+				if r.Chance(1, 3) {
+					toks = append(toks, "R0")
+				}
+				var c []int
+				for i := range stored {
+					c = append(c, i)
+				}
+				sort.Ints(c)
+				src := c[r.Intn(len(c))]
+				if r.Chance(2, 3) {
+					src = open
+				}
+				toks = append(toks, "T"+vu.X(uint64(src)))
+				nhd := &c03GenHandle{kv: map[string][]byte{}}
+				for a, b := range hsG[src].kv {
+					nhd.kv[a] = b
+				}
+				for c2, ckv := range hsG[src].kids {
+					if nhd.kids == nil {
+						nhd.kids = map[string]map[string][]byte{}
+					}
+					m := map[string][]byte{}
+					for a, b := range ckv {
+						m[a] = b
+					}
+					nhd.kids[c2] = m
+				}
+				hsG = append(hsG, nhd)
+				open = nh
+				nh++
+			}
+		}
+		emit(strings.Join(toks, " "))
+	}
+}
+
 func c03AllGen(r *vu.RNG, n int, emit func(string)) {
 	if vu.Thorough() {
 		c03Exhaustive(emit)
 	}
 	ns := n / 5
-	c03Gen(r.Fork(), n-ns, emit)
+	nc := n / 12
+	c03Gen(r.Fork(), n-ns-nc, emit)
 	c03sGen(r.Fork(), ns, emit)
+	c03csGen(r.Fork(), nc, emit)
 }
 
 func c03AllRun(in string) string {
+	if strings.HasPrefix(in, "cstate") {
+		return c03csRun(in)
+	}
 	if strings.HasPrefix(in, "state") {
 		return c03sRun(in)
 	}
